@@ -696,7 +696,6 @@ func ruleSectionKindPerSection(c *eng.Ctx) {
 		c.Undec(R, "core.(*XRefParser).ParseXRef", token.NoPos, "anchor not found")
 		return
 	}
-	recv := ssa.Value(fn.Params[0])
 	// fields of the parser that some method assigns after construction
 	assigned := map[string]string{}
 	for _, f := range c.P.ModuleFuncs() {
@@ -712,9 +711,41 @@ func ruleSectionKindPerSection(c *eng.Ctx) {
 		})
 	}
 	n := 0
-	for _, ci := range eng.CallsNamed(fn, false, "core.(*XRefParser).parseTraditionalXRef", "core.(*XRefParser).parseXRefStream") {
+	// where the sub-parser is picked: a call, or a method value taken to be called later (a strategy chosen by a
+	// helper of ParseXRef)
+	type pick struct {
+		in   ssa.Instruction
+		host *ssa.Function
+		what string
+	}
+	var picks []pick
+	targets := map[string]bool{"core.(*XRefParser).parseTraditionalXRef": true, "core.(*XRefParser).parseXRefStream": true}
+	for _, h := range eng.Cluster(fn, 1) {
+		if h.Pkg != fn.Pkg || (h != fn && targets[eng.FuncName(h)]) {
+			continue
+		}
+		eng.Instrs(h, false, func(in ssa.Instruction) {
+			switch x := in.(type) {
+			case ssa.CallInstruction:
+				if nm := eng.CalleeName(x); targets[nm] {
+					picks = append(picks, pick{in, h, nm})
+				}
+			case *ssa.MakeClosure:
+				if gs, _ := eng.FuncValues(x); len(gs) == 1 && targets[eng.FuncName(gs[0])] {
+					picks = append(picks, pick{in, h, eng.FuncName(gs[0])})
+				}
+			}
+		})
+	}
+	for _, pk := range picks {
+		ci := pk.in
 		n++
-		key := fmt.Sprintf("core.(*XRefParser).ParseXRef#%s", eng.CalleeName(ci))
+		key := fmt.Sprintf("core.(*XRefParser).ParseXRef#%s", pk.what)
+		fn := pk.host
+		if len(fn.Params) == 0 {
+			continue
+		}
+		recv := ssa.Value(fn.Params[0])
 		ifs, _ := eng.DominatingIfs([]*ssa.Function{fn}, ci)
 		bad := ""
 		for _, iff := range ifs {
@@ -1600,16 +1631,55 @@ func cursorReads(fn *ssa.Function, spec cursorSpec, movers map[*ssa.Function]boo
 			idx[in] = i
 		}
 	}
+	var isKill func(in ssa.Instruction) (kill bool, shift int64, shifted bool)
+	killsIn := func(b *ssa.BasicBlock, from, to int) bool {
+		saved := posLoads
+		defer func() { posLoads = saved }()
+		for i, ins := range b.Instrs {
+			if i < from || i >= to {
+				continue
+			}
+			if k, _, _ := isKill(ins); k {
+				return true
+			}
+		}
+		return false
+	}
+	// fresh: every cursor load the expression used still shows the cursor's value at position `from` of block b —
+	// taken there, or taken in an earlier block with no move of the cursor on any way from there to here (the
+	// operands of a named condition: ok := pos+1 < len(data); if ok && data[pos+1] …)
 	fresh := func(b *ssa.BasicBlock, from int) bool {
 		for _, l := range posLoads {
 			li, ok := l.(ssa.Instruction)
-			if !ok || li.Block() != b || idx[li] < from {
+			if !ok {
 				return false
+			}
+			lb := li.Block()
+			if lb == b {
+				if idx[li] < from {
+					return false
+				}
+				continue
+			}
+			if from > 0 && killsIn(b, 0, from) {
+				return false
+			}
+			if killsIn(lb, idx[li], len(lb.Instrs)) {
+				return false
+			}
+			fwd := eng.ReachableBlocks(lb.Succs, func(x *ssa.BasicBlock) bool { return x == b })
+			for x := range fwd {
+				if x == lb || x == b {
+					continue
+				}
+				if eng.ReachableBlocks([]*ssa.BasicBlock{x}, nil)[b] && killsIn(x, 0, len(x.Instrs)) {
+					return false
+				}
 			}
 		}
 		return true
 	}
-	isKill := func(in ssa.Instruction) (kill bool, shift int64, shifted bool) {
+	isKill = func(in ssa.Instruction) (kill bool, shift int64, shifted bool) {
 		switch x := in.(type) {
 		case *ssa.Store:
 			if fr, ok := eng.AsField(x.Addr); ok && fr.Field == spec.pos && strings.HasSuffix(fr.Struct, spec.typ) {
@@ -2561,7 +2631,7 @@ func ruleFlushConsumesPending(c *eng.Ctx) {
 // R2.20 [C02, C07]
 func ruleUnitDecoderReads(c *eng.Ctx) {
 	const R = "R2.20-UNIT-DECODER-READS"
-	c.Rule(R, "the two-byte decoders of the font package (DecodeUTF16BE, DecodeUTF16LE and their siblings that walk a byte slice in steps of two) read data[i+k] only where i+k < len(data) follows from the conditions on the way: from a test i+c < len(data) with c >= k, or — the cursor being even — from such a test with c = k-1 together with the input having been brought to an even length before the loop. A surrogate pair read as data[i+3] behind i+2 < len(data) is a read past the end for input of odd length unless the padding is there", 4, 0)
+	c.Rule(R, "the two-byte decoders of the font package (DecodeUTF16BE, DecodeUTF16LE and their siblings that walk a byte slice in steps of two) read data[i+k] only where i+k < len(data) follows from the conditions on the way: from a test i+c < len(data) with c >= k, or — the cursor being even — from such a test with c = k-1 together with the input having been brought to an even length before the loop. A surrogate pair read as data[i+3] behind i+2 < len(data) is a read past the end for input of odd length unless the padding is there", 1, 0)
 	for _, fn := range c.P.ModuleFuncs() {
 		if fn.Pkg == nil || fn.Blocks == nil || fn.Parent() != nil || eng.ShortPath(fn.Pkg.Pkg.Path()) != "font" {
 			continue
@@ -2762,8 +2832,28 @@ func ruleUnitDecoderReads(c *eng.Ctx) {
 					break
 				}
 			}
-			ok2 := best >= k || (evenLen && evenSteps && startsEven && k%2 == 1 && best >= k-1 && best%2 == 0)
-			c.Check(ok2, R, fmt.Sprintf("%s#data[i+%d]#%d", eng.FuncName(fn), k, n), ia.Pos(), fmt.Sprintf("i+%d < len(data) follows (tested: i+%d, even length: %v)", k, best, evenLen), fmt.Sprintf("data[i+%d] is read where only i+%d < len(data) is established and the input is not known to have even length: input that ends in the middle of a code unit (odd length) is read past the end (index out of range)", k, best))
+			// odd lengths may also have been refused: the read sits behind len(data)%2 == 0
+			evenHere := evenLen || eng.GuardedBy(fn, ia.Block(), func(f eng.Fact) bool {
+				op, x, y, ok := f.Cmp()
+				if !ok || op != token.EQL {
+					return false
+				}
+				for _, pair := range [][2]ssa.Value{{x, y}, {y, x}} {
+					if k0, isC := eng.ConstInt(pair[1]); !isC || k0 != 0 {
+						continue
+					}
+					if b, ok := pair[0].(*ssa.BinOp); ok && b.Op == token.REM {
+						if k2, isC := eng.ConstInt(b.Y); isC && k2 == 2 {
+							if call, ok := b.X.(*ssa.Call); ok && eng.CalleeName(call) == "builtin:len" && isData(call.Call.Args[0]) {
+								return true
+							}
+						}
+					}
+				}
+				return false
+			})
+			ok2 := best >= k || (evenHere && evenSteps && startsEven && k%2 == 1 && best >= k-1 && best%2 == 0)
+			c.Check(ok2, R, fmt.Sprintf("%s#data[i+%d]#%d", eng.FuncName(fn), k, n), ia.Pos(), fmt.Sprintf("i+%d < len(data) follows (tested: i+%d, even length: %v)", k, best, evenHere), fmt.Sprintf("data[i+%d] is read where only i+%d < len(data) is established and the input is not known to have even length: input that ends in the middle of a code unit (odd length) is read past the end (index out of range)", k, best))
 		})
 	}
 }
